@@ -96,6 +96,11 @@ type VM struct {
 	cases    []reflect.SelectCase // select cases.
 	panic    *PanicError          // panic.
 	main     bool                 // reports whether this VM is executing the main goroutine.
+
+	// nativeFp is the frame pointer to restore if the native function that
+	// is executing panics; inNative reports whether one is executing.
+	nativeFp [4]Addr
+	inNative bool
 }
 
 // NewVM returns a new virtual machine.
@@ -267,6 +272,13 @@ func (vm *VM) callNative(fn *NativeFunction, numVariadic int8, shift StackShift,
 	// Make a copy of the frame pointer.
 	fp := vm.fp
 
+	// If the function panics, the frame pointer is restored before the
+	// deferred calls are executed.
+	if !asGoroutine {
+		vm.nativeFp = fp
+		vm.inNative = true
+	}
+
 	// Shift the frame pointer.
 	vm.fp[0] += Addr(shift[0])
 	vm.fp[1] += Addr(shift[1])
@@ -307,6 +319,7 @@ func (vm *VM) callNative(fn *NativeFunction, numVariadic int8, shift StackShift,
 			}
 		}
 		vm.fp = fp
+		vm.inNative = false
 		return
 	}
 
@@ -437,6 +450,7 @@ func (vm *VM) callNative(fn *NativeFunction, numVariadic int8, shift StackShift,
 	}
 
 	vm.fp = fp // Restore the frame pointer.
+	vm.inNative = false
 
 	return
 }
